@@ -22,18 +22,7 @@ ASSUMPTIONS = [
     "pre_perm is kept newest-first in the model (only [-1], [:-1], min/max, pop(0) and sort() are used by the code)",
 ]
 PARTIAL = [
-    "pinword_contains_iff (Bassino-Bouvel-Pierrot-Rossin Thm 3.13: sigma <= perm(w) <-> some pin word u of sigma has "
-    "pinword_contains(w,u)) - NOT proved; evaluated as a BOUNDED TEST, both directions, by op pw_pcont "
-    "(quick: strict |w|<=5, all |w|<=4, all sigma with |sigma|<=4; thorough: strict <=7 (sigma<=5 for |w|=6), all <=5) "
-    "and re-checked with the harness's own gap filter over the real pinword_occurrences output (pw_pcontnt). "
-    "Passes since repository fix ff59958 (finding C14-touch: touching factors on a direction letter were accepted). "
-    "Its cross-consistency with C15 is no longer partial: A5' nfa_vs_occurrences is PROVED (Props/C14.lean "
-    "helpers_agree_C15, nfa_vs_occurrences, nfa_vs_occurrences_M, nfa_vs_occurrences_general; Lemmas/C14C15.lean): for every "
-    "strict pin word w of the language, every m in sp_to_m(w) and every string u not starting with a direction letter, "
-    "pinword_contains(w,u) is True iff the C15 model NFA of make_nfa_for_pinword(u) accepts m, and for every pin word w "
-    "(several numerals) the same factor by factor - so this statement and C15's accepts_iff_contains are one open statement "
-    "(for u starting with a direction letter - not a pin word - the two differ: quadrant(u,0) raises KeyError, the NFA "
-    "searches the letters of u)",
+    "PROVED since the first build (nothing of Theorem 3.13 is only evaluated any more): pinword_contains_iff (Bassino-Bouvel-Pierrot-Rossin Thm 3.13: sigma <= perm(w) <-> some pin word u of sigma has pinword_contains(w,u)) in both directions for EVERY pin word w of the language and every permutation - Props/C14.lean A6 (pinword_contains_sound, pinword_contains_complete, pinword_contains_iff, pinword_contains_iff_table, containsTable_spec), with consequences A6' basisAccepts_iff_contains (= C15 accepts_iff_contains), A7 hasFinitePinperms_iff / hasFinitePinperms_class_only, A8 decode_act / hasFinitePinperms_act (= C16 pin_D8_invariant). The ops pw_pcont / pw_pcontnt are now a correspondence test of the real code against the proved model semantics; the driver evaluates the memoised variant containsTableMemo (equal to containsTable by unfolding; that equality is evaluated, not stated as a theorem)",
 ]
 TRUSTED = ["fractions.Fraction == exact rational arithmetic (Lean core Rat)"]
 
